@@ -20,7 +20,9 @@ import (
 	"encoding/json"
 	"fmt"
 	"os"
+	"path/filepath"
 	"reflect"
+	"regexp"
 	"sort"
 	"strings"
 
@@ -58,7 +60,9 @@ func (c *capture) RegisterService(sd *grpc.ServiceDesc, ss interface{}) {
 				url = sdk.MsgTypeURL(msg)
 			}
 			return nil
-		}, func(context.Context, interface{}, *grpc.UnaryServerInfo, grpc.UnaryHandler) (interface{}, error) { return nil, nil })
+		}, func(context.Context, interface{}, *grpc.UnaryServerInfo, grpc.UnaryHandler) (interface{}, error) {
+			return nil, nil
+		})
 		if url != "" {
 			c.methods[url] = directMethod{srv: ss, handler: m.Handler, name: sd.ServiceName + "/" + m.MethodName}
 		}
@@ -132,19 +136,24 @@ type harness struct {
 	items    []string // Cases_C16.v
 	urlIdx   map[string]bool
 	tRot     int
+	root     sdk.Context       // the state every delivery branches from: c.Ctx, or a branch with a governance switch turned off
+	config   string            // "" = default configuration
+	guards   map[string]string // type URL -> what the translator read of its handlers (for the replay)
 }
 
 type replayT struct {
-	Seed      int64  `json:"seed"`
-	URL       string `json:"type_url"`
-	Variant   string `json:"payload_variant"`
-	Level     string `json:"delivery"`
-	Class     string `json:"authority_class"`
-	Authority string `json:"authority"`
-	Msg       string `json:"message"`
-	Err       string `json:"error"`
-	Changed   []string `json:"stores_changed"`
-	Diff      []string `json:"diff"`
+	Seed        int64    `json:"seed"`
+	Config      string   `json:"configuration,omitempty"` // governance switch turned off before the delivery ("" = default)
+	SourceGuard string   `json:"source_guard,omitempty"`  // what the translator read of this type's handlers (position/kind of the guard)
+	URL         string   `json:"type_url"`
+	Variant     string   `json:"payload_variant"`
+	Level       string   `json:"delivery"`
+	Class       string   `json:"authority_class"`
+	Authority   string   `json:"authority"`
+	Msg         string   `json:"message"`
+	Err         string   `json:"error"`
+	Changed     []string `json:"stores_changed"`
+	Diff        []string `json:"diff"`
 }
 
 func (h *harness) routerDeliver(ctx sdk.Context, msg sdk.Msg) (err error) {
@@ -261,7 +270,9 @@ func main() {
 	}
 	sort.Strings(h.tNames)
 	h.direct = fxServers(c)
-	h.base = h.digest(c.Ctx)
+	h.root = c.Ctx
+	h.base = h.digest(h.root)
+	h.guards = readGuardFacts()
 
 	rows, routable, err := authMsgs(c)
 	must(err)
@@ -296,6 +307,10 @@ func main() {
 		}
 	}
 
+	h.configSweep(sc, rows, vs, chains)
+	h.root, h.config, h.baseDump = c.Ctx, "", nil
+	h.base = h.digest(h.root)
+
 	casItems := h.casCases(sc, thorough)
 
 	lib.WriteCases("Cases_C16.v", []string{"model.M_AuthorityTypes", "gen.Gen_Authority", "model.M_Authority", "model.M_AuthorityCorr"},
@@ -318,7 +333,7 @@ func (h *harness) exercise(row authMsg, pl payload, vs []variant) {
 	{
 		m := clone(pl.Msg)
 		setSigner(m, row.GoField, gov)
-		ctx, _ := c.Ctx.CacheContext()
+		ctx, _ := h.root.CacheContext()
 		err := h.routerDeliver(ctx, m)
 		posOK = err == nil
 		if posOK {
@@ -328,12 +343,12 @@ func (h *harness) exercise(row authMsg, pl payload, vs []variant) {
 		if !posOK {
 			rep.Count("positive-not-accepted:" + row.URL + ":" + pl.Variant + ":" + errClass(err))
 		}
-		if !posOK && pl.NoPositive == "" {
+		if !posOK && pl.NoPositive == "" && h.config == "" {
 			rep.Fail(lib.Failure{Kind: "harness", What: fmt.Sprintf("positive control failed: %s (%s) with the governance authority: %v", row.URL, pl.Variant, err),
 				Sig: "C16:harness:positive:" + row.URL, Replay: map[string]string{"msg": fmt.Sprintf("%v", m)}})
 		}
-		if hasDirect && posOK {
-			ctx2, _ := c.Ctx.CacheContext()
+		if hasDirect && posOK && h.config == "" {
+			ctx2, _ := h.root.CacheContext()
 			if err := h.directDeliver(ctx2, row.URL, m); err != nil {
 				rep.Fail(lib.Failure{Kind: "harness", What: fmt.Sprintf("direct server call of %s fails where the router succeeds: %v", row.URL, err), Sig: "C16:harness:direct:" + row.URL})
 			}
@@ -358,7 +373,7 @@ func (h *harness) exercise(row authMsg, pl payload, vs []variant) {
 			}
 			m := clone(pl.Msg)
 			setSigner(m, row.GoField, v.Value)
-			ctx, _ := c.Ctx.CacheContext()
+			ctx, _ := h.root.CacheContext()
 			var err error
 			switch lv {
 			case "A":
@@ -374,7 +389,7 @@ func (h *harness) exercise(row authMsg, pl payload, vs []variant) {
 			}
 			after := h.digest(ctx)
 			changed := h.base.diff(after)
-			key := fmt.Sprintf("%s|%s|%s|%s", row.URL, pl.Variant, v.Class, lv)
+			key := fmt.Sprintf("%s|%s|%s|%s|%s", row.URL, pl.Variant, v.Class, lv, h.config)
 			rep.Case(key, posOK && posEffect)
 			rep.Count("level=" + lv)
 			rep.Count("outcome:" + errClass(err))
@@ -402,7 +417,7 @@ func (h *harness) exercise(row authMsg, pl payload, vs []variant) {
 			if bad != "" {
 				var diff []string
 				if h.baseDump == nil {
-					h.baseDump = c.DumpAll(c.Ctx)
+					h.baseDump = c.DumpAll(h.root)
 				}
 				diff = lib.DiffDumps(h.baseDump, c.DumpAll(ctx))
 				es := ""
@@ -410,9 +425,9 @@ func (h *harness) exercise(row authMsg, pl payload, vs []variant) {
 					es = err.Error()
 				}
 				rep.Fail(lib.Failure{Kind: "monitor",
-					What: fmt.Sprintf("%s (%s) with non-governance authority class %s delivered %s: %s (stores changed: %v)", row.URL, pl.Variant, v.Class, lv, bad, changed),
+					What: fmt.Sprintf("%s (%s)%s with non-governance authority class %s delivered %s: %s (stores changed: %v)", row.URL, pl.Variant, h.configText(), v.Class, lv, bad, changed),
 					Sig:  "C16:authority:" + row.URL + ":" + bad,
-					Replay: replayT{Seed: h.c.Seed, URL: row.URL, Variant: pl.Variant, Level: lv, Class: v.Class, Authority: v.Value,
+					Replay: replayT{Seed: h.c.Seed, Config: h.config, SourceGuard: h.guards[row.URL], URL: row.URL, Variant: pl.Variant, Level: lv, Class: v.Class, Authority: v.Value,
 						Msg: fmt.Sprintf("%v", m), Err: es, Changed: changed, Diff: diff}})
 			}
 			if len(rep.Samples) < 5 && v.Class == "gov-mixed-case" {
@@ -433,6 +448,38 @@ func (h *harness) exercise(row authMsg, pl payload, vs []variant) {
 			}
 		}
 	}
+}
+
+func (h *harness) configText() string {
+	if h.config == "" {
+		return ""
+	}
+	return " in configuration [" + h.config + "]"
+}
+
+// readGuardFacts: the rows harness/gen_c16 generated in this run (bin/check puts them next to the harness
+// output), so that a replay can say what the source looks like: "url -> handler guard_idx kind against ..."
+func readGuardFacts() map[string]string {
+	out := map[string]string{}
+	for _, p := range []string{filepath.Join(lib.OutDir(), "..", "gen", "Gen_Authority.v"), filepath.Join(lib.OutDir(), "..", "..", "..", "coq", "gen", "Gen_Authority.v")} {
+		b, err := os.ReadFile(p)
+		if err != nil {
+			continue
+		}
+		re := regexp.MustCompile(`mk_handler "([^"]*)" "([^"]*)" "[^"]*" "([^"]*)" "[^"]*" \((-?\d+)\) (\w+) "([^"]*)" (true|false)`)
+		for _, m := range re.FindAllStringSubmatch(string(b), -1) {
+			fact := fmt.Sprintf("%s:%s guard statement #%s kind %s compared with %q call-before-guard=%s", m[2], m[3], m[4], m[5], m[6], m[7])
+			if m[5] == "CmpGuardNotFirst" {
+				fact += " — GuardNotFirst: the helper that compares the authority does something else first"
+			}
+			if out[m[1]] != "" {
+				out[m[1]] += " | "
+			}
+			out[m[1]] += fact
+		}
+		break
+	}
+	return out
 }
 
 var noted = map[string]bool{}
